@@ -92,8 +92,12 @@ def run(chk):
                     # targets, and compared AFTER it with a freshly constructed shape on the new vertices: the whole shape is rescaled, not
                     # only the quantities looked at above
                     whole = cls in Z.VERTEX_CLASSES and k in (ks[1], "+fine")
+                    twin = None
                     if whole:
                         C.excname(C03.full_observe, obj)
+                        # ... and ONLY the assigned shape: a deep copy taken before the assignment stays the shape it was
+                        import copy as copy_
+                        twin = C.excname(copy_.deepcopy, obj)[1]
                     st, _ = C.excname(setattr, obj, prop, tgt)
                     chk.case([cls, prop, k, tilt, opp], True)
                     chk.count("cls:" + cls)
@@ -143,6 +147,13 @@ def run(chk):
                             chk.violation("dimensionless-descriptor-changed", dict(desc, iq_before=float(iq0[1]), iq_after=None if st2 != "ok" else float(iq1)))
                     if whole:
                         C03.compare(chk, cls, ["read:observables", "set:%s=%r" % (prop, tgt)], obj)
+                        if twin is not None:
+                            pt, st_, ct = geometry(twin)
+                            if not np.array_equal(pt, p0) or st_ != s0:
+                                chk.violation("setter-changed-another-shape", dict(desc, what="a deep copy taken before the assignment has other vertices / radius after it"))
+                            else:
+                                C03.compare(chk, cls, ["read:observables", "copy.deepcopy -> twin", "set on the original:%s=%r" % (prop, tgt), "(twin judged)"], twin)
+                            chk.count("twin-judged")
                     chk.sample(dict(cls=cls, prop=prop, target=tgt, readback=got, scale=s))
                 bad_targets(chk, cls, prop, tilt, opp=opp)
     BASE[0] = None
